@@ -35,7 +35,7 @@ Definition spec_fs_ok (st : option nat) (r : fs_out) : Prop :=
 (** the key store a component gets for an input *)
 Definition ks_of (c : comp) (f : fixes) (i : kinput) : res (list entry) :=
   if match c with Tls => i_path_empty i | _ => false end then Err else
-  match i_file i with
+  match eff_file f i with
   | None => Err
   | Some bl => create_key_store f (i_chain_ok i) bl
   end.
@@ -194,7 +194,7 @@ Lemma load_ks c f i :
 Proof.
   unfold load, ks_of.
   destruct (match c with Tls => i_path_empty i | _ => false end); [reflexivity|].
-  destruct (i_file i); reflexivity.
+  destruct (eff_file f i); reflexivity.
 Qed.
 
 Lemma cert_check_neg i e :
@@ -346,7 +346,7 @@ Qed.
 Lemma ks_of_panic c f i s : ks_of c f i = Panic s -> s = SChainLoop.
 Proof.
   unfold ks_of. destruct (match c with Tls => i_path_empty i | _ => false end); [discriminate|].
-  destruct (i_file i); [apply ks_panic|discriminate].
+  destruct (eff_file f i); [apply ks_panic|discriminate].
 Qed.
 
 Theorem exit_iff_guards c f st i s :
@@ -384,7 +384,8 @@ Qed.
 
 (** the guards are not vacuous: each recorded finding ends the process *)
 Definition in_of (keyid : string) (bl : list block) : kinput :=
-  {| i_path_empty := false; i_keyid := keyid; i_file := Some bl; i_chain_ok := fun _ => true; i_usable := fun _ => true |}.
+  {| i_path_empty := false; i_keyid := keyid; i_file := Some bl; i_trailing := false;
+     i_chain_ok := fun _ => true; i_usable := fun _ => true |}.
 
 Definition st0 : kstate := {| st_kid := "old"; st_alg := "ES256"; st_pub := Some 1; st_keys := [("old", "ES256")]%string; st_chain := [] |}.
 
@@ -437,7 +438,7 @@ Definition block_ok_ts (strict : bool) (b : block) : bool :=
   end.
 
 Definition guard_F7 (f : fixes) (strict : bool) (i : ts_input) : bool :=
-  negb (fx7 f) &&
+  negb (fx7 f) && negb (fx10 f) &&
   (is_nil (ts_blocks i) || (forallb (block_ok_ts strict) (ts_blocks i) && ts_trailing i)).
 
 Lemma ts_loop_spec strict bl : forall acc,
@@ -453,26 +454,33 @@ Proof.
     + destruct strict; simpl; [right; auto|apply IH].
 Qed.
 
+(** what ReadPEM does at a nil block *)
+Definition nil_block (f : fixes) (acc : list nat) : res (list nat) :=
+  if fx10 f then Err else if fx7 f then Ok acc else Panic SNilBlock.
+
 Lemma trust_store_unfold f strict i :
   trust_store f strict i =
-  if is_nil (ts_blocks i) then (if fx7 f then Ok [] else Panic SNilBlock)
+  if is_nil (ts_blocks i) then nil_block f []
   else bind (ts_loop strict (ts_blocks i) [])
-            (fun acc => if ts_trailing i && negb (fx7 f) then Panic SNilBlock else Ok acc).
-Proof. unfold trust_store. destruct (ts_blocks i); reflexivity. Qed.
+            (fun acc => if ts_trailing i then nil_block f acc else Ok acc).
+Proof. unfold trust_store, nil_block. destruct (ts_blocks i); reflexivity. Qed.
+
+Lemma nil_block_panic f acc s : nil_block f acc = Panic s <-> (s = SNilBlock /\ negb (fx7 f) && negb (fx10 f) = true).
+Proof.
+  unfold nil_block. destruct (fx10 f), (fx7 f); simpl; split; try discriminate; try (intros [_ H]; discriminate).
+  - intros H; inversion H; auto.
+  - intros [-> _]; reflexivity.
+Qed.
 
 Theorem trust_store_panic_iff f strict i s :
   trust_store f strict i = Panic s <-> (s = SNilBlock /\ guard_F7 f strict i = true).
 Proof.
   rewrite trust_store_unfold. unfold guard_F7. destruct (is_nil (ts_blocks i)) eqn:B; simpl.
-  - destruct (fx7 f); simpl; split; try discriminate.
-    + intros [_ H]; discriminate.
-    + intros H; inversion H; auto.
-    + intros [-> _]; reflexivity.
+  - rewrite nil_block_panic. rewrite andb_true_r. tauto.
   - destruct (ts_loop_spec strict (ts_blocks i) []) as [[Hf [l Hl]]|[Hf Hl]]; rewrite Hl, Hf; simpl.
-    + destruct (ts_trailing i), (fx7 f); simpl; split; try discriminate;
-        try (intros [_ H]; discriminate).
-      * intros H; inversion H; auto.
-      * intros [-> _]; reflexivity.
+    + destruct (ts_trailing i).
+      * rewrite nil_block_panic. rewrite andb_true_r. tauto.
+      * rewrite andb_false_r. split; [discriminate|intros [_ H]; discriminate].
     + rewrite andb_false_r. split; [discriminate|intros [_ H]; discriminate].
 Qed.
 
@@ -673,14 +681,14 @@ Definition ev_typed (e : rs_event) : bool :=
   match ev_parse e with PParsed rs => forallb typed_rule rs | _ => true end.
 (** the collaborators taken as data did not panic themselves *)
 Definition ev_oracle_total (f : fixes) (e : rs_event) : bool :=
-  match ev_parse e with PParsed rs => forallb oracle_total_rule rs | PRejected => true | PPanics => fx8 f end.
+  match ev_parse e with PParsed rs => forallb oracle_total_rule rs | PRejected => true | PPanics => false end.
 
 Lemma process_exit f proxy def st e s :
   process f proxy def st e = RsExit s ->
   confused f (ev_typed e) s \/ ((s = SMech \/ s = SDecode) /\ ev_oracle_total f e = false).
 Proof.
   unfold process, ev_typed, ev_oracle_total. destruct (ev_parse e) as [rs| |]; [|discriminate|].
-  2:{ destruct (fx8 f); [discriminate|]. intros H. inversion H. right. auto. }
+  2:{ intros H. inversion H. right. auto. }
   destruct (negb (String.eqb (ev_version e) "1alpha4")); [discriminate|].
   destruct (load_rules f proxy def rs) as [ids| |s'] eqn:L; try discriminate.
   - destruct (ev_repo_ok e); discriminate.
@@ -697,7 +705,7 @@ Definition guard_F3 (f : fixes) (proxy def : bool) (e : rs_event) : bool :=
 Lemma process_exit_any_state f proxy def st st' e s :
   process f proxy def st e = RsExit s -> process f proxy def st' e = RsExit s.
 Proof.
-  unfold process. destruct (ev_parse e) as [rs| |]; [|discriminate|destruct (fx8 f); [discriminate|auto]].
+  unfold process. destruct (ev_parse e) as [rs| |]; [|discriminate|auto].
   destruct (negb (String.eqb (ev_version e) "1alpha4")); [discriminate|].
   destruct (load_rules f proxy def rs); try discriminate; [destruct (ev_repo_ok e); discriminate|auto].
 Qed.
@@ -709,7 +717,7 @@ Proof.
     destruct (load_rules f proxy def rs); try discriminate; [|intros P; inversion P; reflexivity].
     destruct (ev_repo_ok e); intros P; inversion P; reflexivity.
   - intros P; inversion P; reflexivity.
-  - destruct (fx8 f); intros P; inversion P; reflexivity.
+  - discriminate.
 Qed.
 
 (** C19-F8, exactly: the YAML/mapstructure decoder (of the rule set or, inside
@@ -922,7 +930,7 @@ Qed.
 Lemma ks_of_fixed_no_panic c f i s : fx6 f = true -> ks_of c f i <> Panic s.
 Proof.
   intros F. unfold ks_of. destruct (match c with Tls => i_path_empty i | _ => false end); [discriminate|].
-  destruct (i_file i) as [bl|]; [|discriminate]. unfold create_key_store. intros H.
+  destruct (eff_file f i) as [bl|]; [|discriminate]. unfold create_key_store. intros H.
   apply bind_panic in H. destruct H as [H|[[es cs] [_ H]]]; [eapply scan_no_panic; eauto|].
   apply bind_panic in H. destruct H as [H|[a [_ H]]]; [eapply verify_fixed_no_panic; eauto|].
   destruct (fx1 f && is_nil a); discriminate.
@@ -958,7 +966,7 @@ Qed.
 Lemma ks_of_fixed_supported c f i es : fx2 f = true -> ks_of c f i = Ok es -> existsb unsupported es = false.
 Proof.
   intros F. unfold ks_of. destruct (match c with Tls => i_path_empty i | _ => false end); [discriminate|].
-  destruct (i_file i) as [bl|]; [|discriminate]. unfold create_key_store. intros H.
+  destruct (eff_file f i) as [bl|]; [|discriminate]. unfold create_key_store. intros H.
   apply bind_ok in H. destruct H as [[pes cs] [H1 H]].
   apply bind_ok in H. destruct H as [es' [H2 H]].
   destruct (fx1 f && is_nil es'); [discriminate|]. inversion H. subst es'.
@@ -969,7 +977,7 @@ Qed.
 Lemma ks_of_fixed_nonempty c f i : fx1 f = true -> ks_of c f i <> Ok [].
 Proof.
   intros F. unfold ks_of. destruct (match c with Tls => i_path_empty i | _ => false end); [discriminate|].
-  destruct (i_file i) as [bl|]; [|discriminate]. unfold create_key_store. intros H.
+  destruct (eff_file f i) as [bl|]; [|discriminate]. unfold create_key_store. intros H.
   apply bind_ok in H. destruct H as [[pes cs] [_ H]].
   apply bind_ok in H. destruct H as [es' [_ H]].
   rewrite F in H. destruct es'; simpl in H; discriminate.
@@ -1009,13 +1017,9 @@ Proof. intros F. apply trust_store_total. unfold guard_F7. rewrite F. reflexivit
 (** rule sets: with checked assertions (fx3) and the key check of the parser
     (fx8) the only way left to a panic is a collaborator panicking itself *)
 Theorem ruleset_total_fixed f proxy def st e :
-  fx3 f = true -> fx8 f = true ->
-  (forall rs, ev_parse e = PParsed rs -> forallb oracle_total_rule rs = true) ->
+  fx3 f = true -> ev_oracle_total f e = true ->
   spec_rs_ok st (process f proxy def st e).
-Proof.
-  intros F3 F8 O. apply ruleset_total; auto.
-  unfold ev_oracle_total. destruct (ev_parse e) as [rs| |]; auto.
-Qed.
+Proof. intros F3 O. apply ruleset_total; auto. Qed.
 
 (** ** instances for the tree as it is now ([all_fixes]) *)
 Theorem reload_total_now c st i : spec_reload_ok st (on_changed c all_fixes st i).
@@ -1025,8 +1029,7 @@ Theorem trust_store_total_now strict i s : trust_store all_fixes strict i <> Pan
 Proof. apply trust_store_total_fixed. reflexivity. Qed.
 
 Theorem ruleset_total_now proxy def st e :
-  (forall rs, ev_parse e = PParsed rs -> forallb oracle_total_rule rs = true) ->
-  spec_rs_ok st (process all_fixes proxy def st e).
+  ev_oracle_total all_fixes e = true -> spec_rs_ok st (process all_fixes proxy def st e).
 Proof. intros. apply ruleset_total_fixed; auto. Qed.
 
 Theorem fs_total_now st e : spec_fs_ok st (fs_changed all_fixes st e).
@@ -1234,8 +1237,9 @@ Theorem accepted_sizes_have_jwk f ok bl es :
   forall e, In e es -> exists a, jose_alg e = Ok a.
 Proof.
   intros F H e Hin.
-  assert (K : ks_of Signer f {| i_path_empty := false; i_keyid := ""; i_file := Some bl; i_chain_ok := ok;
-                                i_usable := fun _ => true |} = Ok es) by exact H.
+  assert (K : ks_of Signer f {| i_path_empty := false; i_keyid := ""; i_file := Some bl; i_trailing := false;
+                                i_chain_ok := ok; i_usable := fun _ => true |} = Ok es).
+  { unfold ks_of, eff_file. simpl. rewrite andb_false_r. exact H. }
   pose proof (ks_of_fixed_supported _ _ _ _ F K) as U.
   apply jose_alg_ok_iff. eapply existsb_false_in; eauto.
 Qed.
@@ -1336,3 +1340,140 @@ Qed.
 
 Theorem F9_refuted : exists v, guard_F9 no_fixes v = true /\ exists s, decode_scopes no_fixes v = Panic s.
 Proof. exists (YList [YInt 1]). split; [reflexivity|eexists; reflexivity]. Qed.
+
+(** * Partial files (C19-F10): by the text of the property a partial key / trust store
+    is a REJECTED reload.  [i_trailing]: bytes that do not decode follow the last block —
+    what every truncation inside a block leaves behind. *)
+Definition spec_partial_rejected (i : kinput) (r : reload) : Prop :=
+  i_trailing i = true -> forall st', r <> Reloaded st'.
+
+Definition guard_F10 (c : comp) (f : fixes) (i : kinput) : bool :=
+  negb (fx10 f) && i_trailing i && match load c f i with Ok _ => true | _ => false end.
+
+Theorem partial_rejected_fixed c f st i :
+  fx10 f = true -> i_trailing i = true -> on_changed c f st i = Kept st.
+Proof.
+  intros F T. unfold on_changed, load, eff_file. rewrite F, T. simpl.
+  destruct (match c with Tls => i_path_empty i | _ => false end); [reflexivity|].
+  destruct (i_file i); reflexivity.
+Qed.
+
+Theorem partial_rejected c f st i :
+  guard_F10 c f i = false -> spec_partial_rejected i (on_changed c f st i).
+Proof.
+  unfold guard_F10, spec_partial_rejected. intros G T st'. rewrite T in G.
+  destruct (fx10 f) eqn:F.
+  - rewrite (partial_rejected_fixed c f st i F T). discriminate.
+  - simpl in G. unfold on_changed. destruct (load c f i); discriminate.
+Qed.
+
+Theorem F10_refuted : exists c i st', i_trailing i = true /\ guard_F10 c no_fixes i = true /\
+  on_changed c no_fixes st0 i = Reloaded st'.
+Proof.
+  exists Signer, {| i_path_empty := false; i_keyid := ""; i_trailing := true; i_chain_ok := fun _ => true; i_usable := fun _ => true;
+                    i_file := Some [BKey (Some (KSig ECDSA 256 1 "aa")) ""] |}.
+  eexists. vm_compute. splits; reflexivity.
+Qed.
+
+(** trust store: a file without any block, or with an undecodable tail, is not accepted once repaired … *)
+Theorem trust_store_partial_rejected_fixed f strict i l :
+  fx10 f = true -> (ts_blocks i = [] \/ ts_trailing i = true) -> trust_store f strict i <> Ok l.
+Proof.
+  intros F H. rewrite trust_store_unfold. unfold nil_block. rewrite F.
+  destruct (is_nil (ts_blocks i)) eqn:B; [discriminate|].
+  destruct H as [H|H]; [rewrite H in B; discriminate|]. rewrite H.
+  destruct (ts_loop strict (ts_blocks i) []); discriminate.
+Qed.
+
+(** … and is, silently and with fewer certificates, by the tree that has only the repair of F7 *)
+Theorem F10_truststore_refuted : exists f i l, fx7 f = true /\ fx10 f = false /\ ts_blocks i = [] /\ trust_store f true i = Ok l.
+Proof.
+  exists {| fx1 := true; fx2 := true; fx3 := true; fx4 := true; fx5 := true; fx6 := true; fx7 := true; fx8 := true; fx9 := true;
+            fx10 := false; fx18 := true |}, {| ts_blocks := []; ts_trailing := false |}, [].
+  splits; reflexivity.
+Qed.
+
+(** * The empty rule file (C19-F11): a rule file observed at size 0 — truncation at offset 0, what
+    an in-place rewrite shows first — is taken as "rule set deleted" *)
+Definition guard_F11 (f : fixes) (st : option nat) (e : fs_event) : bool :=
+  match op_class f (fe_bits e), fe_read e, st with
+  | FsWrite, RdEmpty, Some _ => true
+  | _, _, _ => false
+  end.
+
+(** on the tree as it is (every event re-examines the file) an event that finds the file empty leaves the
+    stored state as it was, outside the guard *)
+Theorem fs_empty_keeps_state f st e :
+  fx18 f = true -> guard_F11 f st e = false -> fe_read e = RdEmpty ->
+  exists x, fs_changed f st e = FsDone x /\ fr_state x = st.
+Proof.
+  unfold guard_F11, fs_changed, fs_deleted, op_class. intros F G R. rewrite F in *. rewrite R in *.
+  destruct (o_create (fe_bits e) || o_write (fe_bits e) || o_chmod (fe_bits e) || o_remove (fe_bits e) || o_rename (fe_bits e)).
+  - destruct st; [discriminate|]. eexists. split; reflexivity.
+  - eexists. split; reflexivity.
+Qed.
+
+Theorem F11_refuted : exists e, guard_F11 all_fixes (Some 1) e = true /\ fe_read e = RdEmpty /\
+  exists x, fs_changed all_fixes (Some 1) e = FsDone x /\ fr_state x <> Some 1.
+Proof.
+  exists {| fe_bits := {| o_create := false; o_write := true; o_chmod := false; o_remove := false; o_rename := false |};
+            fe_read := RdEmpty; fe_stat_ok := true; fe_proc_ok := true |}.
+  splits; try reflexivity. eexists. split; [reflexivity|]. discriminate.
+Qed.
+
+(** * The loops: "none of them … stops a background watcher" *)
+
+Lemma reload_run_app c f : forall a st b,
+  reload_run c f st (a ++ b) = match reload_run c f st a with Alive st1 => reload_run c f st1 b | Dead s => Dead s end.
+Proof.
+  induction a as [|i r IH]; intros st b; simpl; [reflexivity|].
+  destruct (on_changed c f st i); auto.
+Qed.
+
+(** after ANY sequence of file contents the key-store watcher's listener is alive … *)
+Theorem reload_run_alive c f st is :
+  fx1 f = true -> fx2 f = true -> fx5 f = true -> fx6 f = true -> exists st', reload_run c f st is = Alive st'.
+Proof.
+  intros F1 F2 F5 F6. revert st. induction is as [|i r IH]; intros st; simpl; [eauto|].
+  pose proof (reload_total_fixed c f st i F1 F2 F5 F6) as T.
+  destruct (on_changed c f st i); simpl in T; [apply IH|apply IH|destruct T].
+Qed.
+
+(** … rejected contents change nothing … *)
+Theorem reload_run_all_rejected c f st is :
+  Forall (fun i => load c f i = Err) is -> reload_run c f st is = Alive st.
+Proof.
+  induction 1 as [|i r H _ IH]; simpl; [reflexivity|]. unfold on_changed. rewrite H. exact IH.
+Qed.
+
+(** … and a good content after any number of bad ones is in effect: bad, bad, …, good ⇒ the good state *)
+Theorem reload_run_last_good c f st bad i st' :
+  fx1 f = true -> fx2 f = true -> fx5 f = true -> fx6 f = true ->
+  load c f i = Ok st' -> reload_run c f st (bad ++ [i]) = Alive st'.
+Proof.
+  intros F1 F2 F5 F6 L. rewrite reload_run_app.
+  destruct (reload_run_alive c f st bad F1 F2 F5 F6) as [st1 ->]. simpl. unfold on_changed. rewrite L. reflexivity.
+Qed.
+
+Lemma fs_run_app f : forall a st b,
+  fs_run f st (a ++ b) = match fs_run f st a with Alive st1 => fs_run f st1 b | Dead s => Dead s end.
+Proof.
+  induction a as [|e r IH]; intros st b; simpl; [reflexivity|]. destruct (fs_changed f st e); auto.
+Qed.
+
+Theorem fs_run_alive f st es : fx4 f = true -> exists st', fs_run f st es = Alive st'.
+Proof.
+  intros F. revert st. induction es as [|e r IH]; intros st; simpl; [eauto|].
+  pose proof (fs_total_fixed f st e F) as T. destruct (fs_changed f st e); simpl in T; [apply IH|destruct T].
+Qed.
+
+(** a parsable new content after any events is loaded (created or updated) when the processor accepts it,
+    or was loaded already *)
+Theorem fs_run_last_good f st es e h :
+  fx4 f = true -> op_class f (fe_bits e) = FsWrite -> fe_read e = RdParsed h -> fe_stat_ok e = true -> fe_proc_ok e = true ->
+  fs_run f st (es ++ [e]) = Alive (Some h).
+Proof.
+  intros F O R S P. rewrite fs_run_app. destruct (fs_run_alive f st es F) as [st1 ->]. simpl.
+  unfold fs_changed. rewrite O, R, S, P. simpl.
+  destruct st1 as [h0|]; [|reflexivity]. destruct (Nat.eqb_spec h0 h); subst; reflexivity.
+Qed.
